@@ -24,15 +24,19 @@ def adapters_in(src):
     return out
 
 
-def Elem(base, allow=()):
+def Elem(base, allow=(), g=None):
     """an element of `base`: `base[i]`, or the item of an iteration over `base` whose only truncating adapters are
-    among `allow` (so `for i in 1..n { base[i] }` and `base.iter().skip(1)` are the same thing to a rule)"""
+    among `allow` (so `for i in 1..n { base[i] }` and `base.iter().skip(1)` are the same thing to a rule).
+    g: the function's guards, to resolve the loop's iterator variable to its initial value"""
     def m(e):
         e = strip(e)
         if Index(base, Any())(e):
             return True
-        if Field(Call("next", Mentions(base)), name="0", variant="Some")(e):
-            return all(a in allow for a in adapters_in(e))
+        if Field(Call("next", Any()), name="0", variant="Some")(e):
+            it = e[1][2][0] if e[1][2] else None
+            if it is not None and it[0] == "phi" and g is not None:
+                it = g.eb.init_expr(it[1]) or it
+            return it is not None and Mentions(base)(it) and all(a in allow for a in adapters_in(it))
         return False
     return m
 
